@@ -346,7 +346,7 @@ def crash_chunk(args):
                 if 'a' in flags and not (zf and len(cfg['grid']) > 2):
                     r = io.run_append_crash_states(wd, cfg, base, delta, records, torn, new, zero_fill=zf)
                     res['states'] += r['states']
-                    res['torn_states'] += max(0, full - 1)
+                    res['torn_states'] += r['torn']
                     absorb(cfg, n, full, r, zf, False)
                     if True:
                         child_items.append({'mode': 'append_crash', 'cfg': cfg, 'base': base, 'delta': delta, 'records': records, 'torn_record': torn, 'new_record': new, 'ks': child_ks(full, tier), 'zero_fill': zf})
@@ -756,10 +756,10 @@ def run(rep, tier):
     cl = lattice(nvars)
     cunits = []
     if thorough:
-        cunits = [(c, 0, 'ah' if len(c['grid']) <= 2 else 'h') for c in cl] + [(c, 1, 'a') for c in cl] + [(c, 2, 'a') for c in cl if len(c['grid']) <= 2]
+        cunits = [(c, 0, 'ah' if len(c['grid']) <= 2 else 'h') for c in cl] + [(c, 1, 'a') for c in cl if len(c['grid']) <= 2 or c['nVar'] in (1, 2, 3, 6)] + [(c, 2, 'a') for c in cl if len(c['grid']) <= 2]
         bounds.append(
             {
-                'space': 'C: (full lattice, nVar 1..6) x n=1 and (dims<=2) x n in {0,2}: every byte of the (n+1)-th append; for dims<=2 each state also with zero-filled tail; '
+                'space': 'C: (dims<=2, nVar 1..6) x n in {0,1,2} and (dim 3, nVar in {1,2,3,6}) x n=1: every byte of the (n+1)-th append; for dims<=2 each state also with zero-filled tail; '
                 'header creation: full lattice, every byte (+ zero-filled); every state recovered in-process and again in a fresh process',
                 'configurations': len(cl),
             }
